@@ -353,6 +353,11 @@ def run(ctx):
               and tt.index("_validate_source_dimension") < tt.index("_transform_correct_dimension(value)"), "C15.b",
               "TransformedHistogramMixin.transform:validates", "source dimensionality validated before the formulas are applied",
               "transform no longer validates the source dimensionality first", tr.where)
+    conv64 = [c for c in calls_in(tr.node) if call_is(c, "asarray", "array") and kwarg(c, "dtype") is not None and U(kwarg(c, "dtype")) in ("np.float64", "float", "'float64'")]
+    uncond = any(isinstance(st, ast.Assign) and any(c in calls_in(st) for c in conv64) for st in tr.node.body)
+    ctx.check(bool(conv64) and uncond, "C15.b", "TransformedHistogramMixin.transform:float64", "input converted to float64 unconditionally before the formulas",
+              "transform no longer converts every input to float64 first: float32 points get coordinates of single precision and land in other bins "
+              "than the same points entered through the facades", tr.where)
     vs = mix.methods.get("_validate_source_dimension")
     okv = any(end_kind(p) == "raise" and any(s[0] == "cond" and "value.shape[-1] not in source_ndims" in U(s[1]) and s[2] for s in p)
               for p in function_paths(vs.node))
